@@ -295,7 +295,7 @@ def log_states(task):
             if al.shape != (k, 1) or any(int(v) in zero or not (0 <= int(v) < len(w)) for v in al.ravel()):
                 bad.append({"fn": "sample_snv_alleles", "feature": "zero-weight allele drawn", "w": s["w"],
                             "impl": [int(v) for v in al.ravel()]})
-            if len(okset) == 1 and any(int(v) not in okset for v in al.ravel()):
+            if len(zero) == len(w) - 1 and any(int(v) not in okset for v in al.ravel()):  # exactly one allele has weight
                 bad.append({"fn": "sample_snv_alleles", "feature": "certain allele", "w": s["w"], "impl": [int(v) for v in al.ravel()]})
     return {"n": n, "bad": bad, "info": info}
 
